@@ -6,7 +6,7 @@ HERE = os.path.dirname(os.path.dirname(os.path.abspath(__file__)))
 # id -> (category, technique, level text, level note, design ref)
 CHECKS = {
  "C02": ("exploration", "property-based testing (proptest): differential against an independent strict ESRI decoder/validator",
-         "Every .shp left behind by the writer (drop / finalize / write_shapes, with and without index destination, n>=0) must be accepted by a strict decoder written from the whitepaper that shares no code with the library, and decode to the geometry handed in. Bounded random exploration.",
+         "Every .shp left behind by the writer (drop / finalize / write_shapes, finalize calls and rejected writes of another type at generated positions in the history, with and without index destination, n>=0, large files) must be accepted by a strict decoder written from the whitepaper that shares no code with the library, and decode to the geometry handed in. Bounded random exploration.",
          "Trusted: vlib/refcodec.rs (self-tested at start-up against the third-party fixtures in /repo/tests/data: encode(decode(f)) == f).", "DESIGN.md §3 C02, §2.1"),
  "C04": ("exploration", "property-based testing (proptest): independent parse of the .shx against record offsets found by the independent .shp decoder, plus reader consequences",
          "Index entries, index header and the reader-level consequences (count, random access == sequential, out-of-range, size_hint) are checked for generated sequences of unequal record sizes, in memory and via from_path. Bounded random exploration.",
@@ -30,7 +30,7 @@ CHECKS = {
          "All interleavings of {write a, write b, finalize} up to the stated length, for every type, ending and index configuration: final bytes equal the write-and-drop reference, each finalize leaves flushed complete files, idle finalize does no I/O. Complete within the bound.",
          "Trusted: logging destination double (vlib/io.rs); one generated pair of shapes per type and seed.", "DESIGN.md §3 C09"),
  "C10": ("exploration", "bounded-exhaustive enumeration of histories over all 156 ordered type pairs; op-log comparison across rejected calls",
-         "Every rejected write must return the exact mismatch error and leave op logs and bytes of all destinations (incl. dbf) unchanged; final files equal those of the history without the rejected calls. Complete within the bound.",
+         "Every rejected write (write_shape, write_shape_and_record, and the consuming write_shapes / write_shapes_and_records as last call) must return the exact mismatch error, issue no write call and leave the bytes of all destinations (incl. dbf) unchanged; final files equal those of the history without the rejected calls. Complete within the bound.",
          "Trusted: logging destination double.", "DESIGN.md §3 C10"),
  "C14": ("exploration", "property-based testing (proptest): reference encoder with generated physical permutation and filler runs",
          "Files whose records are physically permuted and separated by generated filler (zeros, random, header-like, whole fake records) are read with their index; iteration must follow the index alone and agree with random access and the count.",
@@ -63,7 +63,7 @@ CHECKS = {
          "shape->geo->shape and geo->shape->geo conversions are compared coordinate by coordinate (bit patterns) and group by group; refused inputs must give Err; every index below dim().size() must be readable through nth / nth_or_panic / nth_unchecked.",
          "Trusted: geo-types' own ring closing as reference on the geo side; orientation asserted only on exact non-zero areas.", "DESIGN.md §3 C20"),
  "C01": ("exploration", "property-based testing (proptest, seeded, shrinking): write->read round trip with an explicit normalisation model",
-         "Generated shape sequences of all 13 types are written through ShapeWriter and read back through every route (generic/typed x iterate/collect/random access x with/without .shx x memory/disk); an oracle built from accessor views as f64 bit patterns decides equality. Bounded random exploration, not proof.",
+         "Generated shape sequences of all 13 types (incl. files with >128 records, >256 parts, >64 points per part; write histories with mid-way finalize) are written through ShapeWriter (with and without index destination) and read back through every route (generic/typed x iterate/collect/random access x with/without .shx x memory/disk, plus a sequential read on a reader that served random accesses); an oracle built from accessor views as f64 bit patterns decides equality. Thorough adds a libFuzzer round-trip target. Bounded exploration, not proof.",
          "Trusted: proptest generators, the accessor view of constructed values; ring roles asserted only where the signed area is exactly computable and non-zero.", "DESIGN.md §3 C01"),
 }
 
